@@ -264,7 +264,7 @@ class SigmaFilter(SigmaRuleBase):
         # responsible for rejecting syntactically invalid patterns at parse time.
         def _replace_token(m: re.Match[str]) -> str:
             token = m.group(0)
-            if token.lower() in self._CONDITION_KEYWORDS:
+            if token in self._CONDITION_KEYWORDS:  # keywords are case-sensitive
                 return token
             if token == "them":
                 # "them" means all detections; replace with a pattern that matches all
@@ -273,7 +273,7 @@ class SigmaFilter(SigmaRuleBase):
             return prefix + "_" + token
 
         filter_condition = re.sub(
-            r"[a-zA-Z*][a-zA-Z0-9*_-]*",
+            r"[a-zA-Z0-9*_][a-zA-Z0-9*_-]*",
             _replace_token,
             self.filter.condition[0],
         )
